@@ -84,7 +84,9 @@ def run(ctx):
       f'{2 if ctx.quick else 3}, shards 1-4, 0-7 rows, iterate_batch_size 1/2/4, '
       f'fused/unfused aggregate) and {len(il)} of run_pipeline_interleaved with '
       'a worker-pool stage (workers 1-2, buffer 0/1/2, num_workers cap) under '
-      'the default schedule; the smallest instance of each driver under delay '
+      'the default schedule; 5 configurations with every placement of one pause '
+      'of the orchestrating loop (slow orchestrator, pause until quiescence, once '
+      'per executed line); the smallest instance of each driver under delay '
       f'bound {1 if ctx.quick else 2}; merge_states strict count for all '
       '(m, n) in 0..4 x 1..5 on both runner kinds. distinct = distinct configuration '
       '(x schedule).')
@@ -97,6 +99,18 @@ def run(ctx):
            ('interleaved', dict(total=2, batch=2, pool=True, W=1, mode='delay'))]
   explorer.explore_all(ctx, MODULE, small, pre_bound=1 if ctx.quick else 2,
                        split=16, hb_cache=True)
+  # the orchestrating loops may be arbitrarily slow at any one executed line
+  # (environment choice "pause here until everybody else has run as far as
+  # possible"): every placement of one pause
+  paused = [('sharded', dict(W=2, S=1, total=2, batch=2, pause=True)),
+            ('sharded', dict(W=2, S=3, total=6, batch=2, pause=True)),
+            ('sharded', dict(W=1, S=2, total=4, batch=2, pause=True)),
+            ('interleaved', dict(total=4, batch=2, pool=True, W=2, buf=1,
+                                 fuse=False, pause=True)),
+            ('interleaved', dict(total=3, batch=2, pool=True, W=1, pause=True))]
+  explorer.explore_all(ctx, MODULE, paused, pre_bound=-1,
+                       dev_bound=1 if ctx.quick else 2, split=16)
+  ctx.notes['slow_orchestrator_configurations'] = len(paused)
   ctx.pmap(_strict_count_unit, [0])
   ctx.notes['configurations'] = len(sh) + len(il)
   ctx.sample({'harness': 'sharded', 'params': sh[5][1]})
